@@ -39,7 +39,7 @@ from mc.refs import relmodel, schemas
 from mc.props import c02
 
 NEEDS_BRIDGEPOINT = True
-BUDGET_S = {'quick': 400, 'thorough': 2400}
+BUDGET_S = {'quick': 1800, 'thorough': 7200}
 ASSUMPTIONS = [
     'identifying attributes never hold empty strings or numeric zeros (whether those are null is not stated); nulls are '
     'unset values and id 0',
@@ -428,9 +428,12 @@ SPELLINGS = ['lower', 'upper', 'mixed']
 
 def a_bounds(tier, name, how):
     caps, keys, own = A_BOUNDS[tier][name]
-    if tier == 'quick' and how != 'lower':
-        caps = dict((k, min(v, 2)) for k, v in caps.items())
-        own = False
+    if how != 'lower':
+        # deviations from the default spelling: the quick bounds in the thorough tier, a reduced bound in the quick tier
+        caps, keys, own = A_BOUNDS['quick'][name]
+        if tier == 'quick':
+            caps = dict((k, min(v, 2)) for k, v in caps.items())
+            own = False
     return caps, keys, own
 
 
@@ -529,6 +532,8 @@ def b_tasks(tier):
             for si in range(len(B_SPELL)):
                 for ii in range(len(B_IDSETS)):
                     for n in range(B_MAXN[tier] + 1):
+                        if n > 2 and si:
+                            continue        # three instances: upper-case type names only
                         tasks.append(['B', ta, tb, si, ii, n])
     return tasks
 
@@ -604,7 +609,8 @@ C_KINDS = ['a', 'N', 's1']
 
 def c_tasks(tier):
     pick = [range(2 if tier == 'quick' else len(sc)) for sc in C_SCENARIOS]
-    return [['C', list(ch)] for ch in itertools.product(*pick)]
+    nr = len(subsets(C_RELS))
+    return [['C', list(ch), ri] for ch in itertools.product(*pick) for ri in range(nr)]
 
 
 def subsets(xs):
@@ -749,16 +755,17 @@ def c_rows(choice):
 def c_run(ctx, task):
     schema = composite()
     rows = c_rows(task[1])
-    res = evaluate(ctx, schema, rows, 'composite', want_parts=True)
+    # the API observations once per model (task with the empty -r selection), quietly for the others
+    first = task[2] == 0
+    res = evaluate(ctx if first else core.Ctx(ctx.prop, ctx.tier, ctx.seed), schema, rows, 'composite', want_parts=True)
     if res is None:
         return None
     parts, text = res
-    ctx.distinct('inputs', ('C', tuple(task[1])))
-    n = 0
-    for rels in subsets(C_RELS):
-        for kinds in subsets(C_KINDS):
-            n += 1
-            cli_check(ctx, schema, rows, rels, kinds, split=(n % 3 == 0), parts=parts, text=text)
+    if first:
+        ctx.distinct('inputs', ('C', tuple(task[1])))
+    rels = subsets(C_RELS)[task[2]]
+    for n, kinds in enumerate(subsets(C_KINDS)):
+        cli_check(ctx, schema, rows, rels, kinds, split=((n + task[2]) % 3 == 0), parts=parts, text=text)
     return None
 
 
@@ -883,7 +890,8 @@ D_BASE = [
 ]
 D_OPTS = {
     'quick': [[[], []], [[8001], []], [[17, 80], []], [[], ['S_DT']], [[], ['pe_pe', 'S_CDT']], [[17], ['S_DT']]],
-    'thorough': [[rs, ks] for rs in subsets([8001, 17, 80]) for ks in subsets(['S_DT', 'pe_pe', 'S_CDT'])],
+    'thorough': [[rs, ks] for rs in subsets([8001, 17]) for ks in subsets(['S_DT', 'pe_pe'])] +
+                [[[80], []], [[17, 80], ['S_CDT']]],
 }
 
 
@@ -892,7 +900,7 @@ def d_models(tier):
     idx = list(range(len(D_BASE)))
     for sub in subsets(idx):
         out.append([sub, None])
-        if tier == 'thorough' or len(sub) == len(idx):
+        if len(sub) >= (4 if tier == 'thorough' else len(idx)):
             for d in sub:
                 out.append([sub, d])
     return out
@@ -1176,14 +1184,24 @@ def dispatch(ctx, task):
 
 def run(ctx):
     ooa_schema()
-    tasks = a_tasks(ctx.tier) + b_tasks(ctx.tier) + c_tasks(ctx.tier) + d_tasks(ctx.tier)
-    # spread the expensive families over the workers; the seed only rotates the order
-    tasks = explorer.rotate(tasks, ctx.seed * 7919)
-    order = sorted(range(len(tasks)), key=lambda i: (i * 2654435761) % 1000003)
-    tasks = [tasks[i] for i in order]
-    ctx.pmap(dispatch, tasks, chunk=4)
-    print('  enumerated families: models=%d cli=%d bpcli=%d t=%.0fs' %
-          (ctx.n('models'), ctx.n('cli_runs'), ctx.n('bp_cli_runs'), ctx.elapsed()), flush=True)
+    # stages, cheapest first; a stage that reports violations ends the run (the remaining stages would only repeat them)
+    stages = [('command lines (C, D)', c_tasks(ctx.tier) + d_tasks(ctx.tier), 1),
+              ('identifier sets (B)', b_tasks(ctx.tier), 4),
+              ('association shapes (A)', a_tasks(ctx.tier), 2)]
+    tasks = []
+    for label, ts, chunk in stages:
+        # spread the expensive tasks over the workers; the seed only rotates the order
+        ts = explorer.rotate(ts, ctx.seed * 7919)
+        order = sorted(range(len(ts)), key=lambda i: (i * 2654435761) % 1000003)
+        ts = [ts[i] for i in order]
+        tasks.extend(ts)
+        ctx.pmap(dispatch, ts, chunk=chunk)
+        print('  %-24s tasks=%d models=%d cli=%d bpcli=%d outcomes=%d/%d/%d t=%.0fs' %
+              (label, len(ts), ctx.n('models'), ctx.n('cli_runs'), ctx.n('bp_cli_runs'), ctx.nd('outcomes'),
+               ctx.nd('cli_outcomes'), ctx.nd('bp_outcomes'), ctx.elapsed()), flush=True)
+        if ctx.violations:
+            print('  violations reported; remaining stages skipped', flush=True)
+            return
     ctx.count('models_enumerated', ctx.n('models'))
     total = 0
     for m in explorer.rotate(e_models(ctx), ctx.seed):
@@ -1191,6 +1209,9 @@ def run(ctx):
         total += res['states']
         print('  %-28s caps=%s states=%d depth=%d closed=%s t=%.0fs' %
               (m.schema.name, m.caps, res['states'], res['depth'], res['closed'], ctx.elapsed()), flush=True)
+        if ctx.violations:
+            print('  violations reported; remaining shapes skipped', flush=True)
+            return
     for t in (tasks[0], tasks[len(tasks) // 2], tasks[-1]):
         ctx.sample(dict(task=t))
     ctx.sample(dict(composite_scenarios=[len(s) for s in C_SCENARIOS], options='all subsets of -r %s x -k %s' % (C_RELS, C_KINDS)))
@@ -1206,7 +1227,7 @@ def run(ctx):
                        ('bp_runs_with_violations', 100), ('bp_runs_clean', 10)):
         ctx.require(ctx.n(key) >= least, 'vacuity: %s = %d (< %d)' % (key, ctx.n(key), least))
     ctx.require(ctx.nd('outcomes') >= 100, 'too few distinct outcomes (%d)' % ctx.nd('outcomes'))
-    ctx.require(ctx.nd('cli_outcomes') >= 10 and ctx.nd('bp_outcomes') >= 5, 'too few distinct command-line outcomes')
+    ctx.require(ctx.nd('cli_outcomes') >= 6 and ctx.nd('bp_outcomes') >= 5, 'too few distinct command-line outcomes')
 
 
 def replay(ctx, case):
